@@ -38,8 +38,12 @@ func cmdTable(args []string) {
 	summ := fs.String("summary", "-", "summary json")
 	maxrep := fs.Int("maxreport", 5, "records kept per mismatch class")
 	fields := fs.String("fields", "", "comma separated observables to compare (default all)")
+	mach := fs.String("machine", "stack", "state machine: stack | cond")
 	_ = fs.Parse(args)
 	setFields(*fields)
+	if machines[*mach] == nil {
+		die(2, "unknown machine %s", *mach)
+	}
 	t, err := LoadTable(*tab)
 	if err != nil {
 		die(2, "load table: %v", err)
@@ -49,7 +53,7 @@ func cmdTable(args []string) {
 		die(2, "%v", err)
 	}
 	defer of.Close()
-	rp := &Replayer{T: t, Prop: *prop, Out: json.NewEncoder(of), MaxReport: *maxrep, Classes: map[string]int{}}
+	rp := &Replayer{T: t, M: machines[*mach], Prop: *prop, Out: json.NewEncoder(of), MaxReport: *maxrep, Classes: map[string]int{}}
 	var inits []string
 	for _, k := range t.Order {
 		if t.States[k].Init {
